@@ -329,6 +329,43 @@ def run(ctx) -> list[Inst]:
                       msg='' if inc else 'no call to <compiler>.compile found in the include handling',
                       file=vm.module.relpath, line=vm.node.lineno, props=props + ('C04',)))
 
+    # (a6) nothing in the package swallows exceptions wholesale: a context manager whose __exit__ returns a truthy
+    # value suppresses whatever was raised inside the `with` (also the compile error of an included file)
+    nexit = 0
+    for c in prog.classes.values():
+        ex = c.methods.get('__exit__')
+        if ex is None or c.module.generated:
+            continue
+        nexit += 1
+        bad = None
+        for n in own_nodes(ex.node):
+            if isinstance(n, ast.Return) and n.value is not None and not (
+                    isinstance(n.value, ast.Constant) and n.value.value in (None, False)):
+                bad = n
+        construct = f'(a) {c.name}.__exit__ does not suppress exceptions'
+        if bad is not None:
+            insts.append(Inst(
+                RULE, ex.short, construct, 'violation',
+                msg=(f"'{stmt_text(bad)}' makes __exit__ return a value that can be truthy: every exception raised "
+                     f"inside 'with {c.name}...' is swallowed - a syntax error in a file compiled inside such a block "
+                     f"disappears and compilation carries on without that file"),
+                file=ex.module.relpath, line=bad.lineno, props=props + ('C04',)))
+        else:
+            insts.append(Inst(RULE, ex.short, construct, 'ok', file=ex.module.relpath, line=ex.node.lineno,
+                              props=props + ('C04',)))
+    for g in prog.all_funcs():
+        if g.module.generated:
+            continue
+        for n in own_nodes(g.node):
+            if isinstance(n, ast.With):
+                for it in n.items:
+                    if 'suppress' in stmt_text(it.context_expr) and any(
+                            isinstance(x, ast.Call) and isinstance(x.func, ast.Attribute) and x.func.attr == 'compile'
+                            for b in n.body for x in ast.walk(b)):
+                        insts.append(Inst(
+                            RULE, g.short, '(a) compile() is not called under contextlib.suppress', 'violation',
+                            msg=f"'{stmt_text(it.context_expr)}' swallows the error of the compilation inside it",
+                            file=g.module.relpath, line=n.lineno, props=props + ('C04',)))
     # ------------------------------------------------------------------ (b)
     insts += _lookups(ctx)
     return insts
